@@ -13,7 +13,7 @@ PID = 'C20'
 LEVEL = 'exploration'
 TECHNIQUE = ('bounded-exhaustive enumeration (model checking of the implementation), 4-way differential: Path-value classes x file-structure classes x '
              'trash-directory kinds; the same hand-written .trashinfo is read by the four real commands and their readings compared with each other and with the spec reading R1')
-LEVEL_TEXT = ('for every combination the path printed by trash-list must be the path trash-restore offers and restores to, the path trash-rm matches (exact pattern removes, a '
+LEVEL_TEXT = ('for every combination the path printed by trash-list (also in its --files rendering) must be the path trash-restore offers and restores to, the path trash-rm matches (exact pattern removes, a '
               'different one does not) and the date both print must be the one trash-empty DAYS compares (purged at +1 s, kept at +0 s); in $topdir directories the result must '
               'also equal the spec reading (first Path / first DeletionDate line, relative to $topdir)')
 LEVEL_NOTE = 'trusted: R1; the base directory of a relative Path inside the HOME trash is not fixed by the spec -- only agreement between the commands is demanded there'
@@ -55,9 +55,10 @@ def content(pv, st):
 
 def run_case(c):
     d = c['dir']
-    mounts = ['/', '/mnt/v1'] + (['/home'] if d == 'home-ownvol' else [])
+    mounts = ['/', '/mnt/v1', '/mnt/v2'] + (['/home'] if d == 'home-ownvol' else [])
     W = scen.base_world(mounts=mounts, cwd='/')
     W.dir('/data/w').dir('/mnt/v1/u/w').dir('/home/u/w')
+    scen.add_trash_dir(W, '/mnt/v2/.Trash-0')          # one more volume with an (empty) trash directory of its own
     td, top = {'home-root': (scen.HOME_TRASH, None), 'home-ownvol': (scen.HOME_TRASH, None), 'top': ('/mnt/v1/.Trash/0', '/mnt/v1'),
                'alt': ('/mnt/v1/.Trash-0', '/mnt/v1'), 'trash-dir': ('/mnt/v1/custom', '/mnt/v1'),
                'trash-dir-xlink': ('/mnt/v1/custom', None)}[d]          # given as --trash-dir /home/u/lnk (a symlink that crosses the volume boundary): no spec reading, agreement only
@@ -78,6 +79,10 @@ def run_case(c):
         if ll:
             first = rl.out.rstrip('\n')
             readings['list_date'], readings['list_path'] = first[:19], first[20:]
+        rf = sb.run(['trash-list', '--files'] + tdopt, cwd='/')
+        if rf.out.strip('\n'):
+            ff = rf.out.rstrip('\n')
+            readings['listfiles_path'] = ff[20:].rsplit(' -> ', 1)[0]
         rr = sb.run(['trash-restore'] + tdopt + ['/'], cwd='/', stdin='\n')
         li = scen.parse_restore_listing(rr.out)
         if li:
@@ -136,6 +141,8 @@ def run_case(c):
         if not d.startswith('trash-dir') and readings['rm_star_when_unlisted'] != 'kept':
             return viol('unlisted-entry-matched-by-rm', '|struct=%s' % c['st'])
         return {'verdict': 'ok', 'klass': 'unreadable-for-all', 'nontrivial': False, 'execs': 4, 'detail': detail}
+    if readings.get('listfiles_path') != L:
+        return viol('list-and-list--files-disagree-on-path')
     if L != R:
         return viol('list-and-restore-disagree-on-path')
     ld, rd = readings['list_date'], readings['restore_date']
